@@ -190,9 +190,15 @@ def parse_block(lines, i, indent):
                         body_lines.append(re.sub(r" \);?$", "", l2.rstrip())); break
                     body_lines.append(l2); j += 1
                 # normalise indentation of body lines to ind+4
+                # (bash prints the statements of a subshell at the indentation of its "(" line and
+                # nested bodies deeper: keep the relative indentation)
                 norm = []
-                for bl in body_lines:
-                    norm.append(" " * (ind + 4) + bl.strip())
+                for k, bl in enumerate(body_lines):
+                    if k == 0:
+                        norm.append(" " * (ind + 4) + bl.strip())
+                    else:
+                        extra = max(0, (len(bl) - len(bl.lstrip(" "))) - ind)
+                        norm.append(" " * (ind + 4 + extra) + bl.strip())
                 body, _ = parse_block(norm, 0, ind + 4)
                 nodes.append(Node("group", body=body, tail="", line=i, sub=True))
                 i = j + 1; continue
